@@ -413,6 +413,7 @@ func Run(c *engine.Ctx) {
 	captured(c, &evals)
 	// (5) through the ticket: VerifyAPREQ with the PAC in the authorization data
 	throughTicket(c, ms, &evals)
+	duplicatesAndPadding(c, ms, &evals)
 
 	c.Add("evaluations", evals)
 	c.Add("states", evals)
@@ -739,4 +740,115 @@ func nameClass(n string) string {
 		}
 	}
 	return cl
+}
+
+// duplicatesAndPadding: (a) a PAC that carries a second server- and KDC-signature buffer. Only the first of each type
+// is a signature (its value is zeroed for the computation); the later ones are ordinary signed data, so every bit of
+// them is covered. (b) a client-info buffer that is longer than its name (trailing bytes): the name reported is the
+// NameLength bytes that are encoded, nothing more.
+func duplicatesAndPadding(c *engine.Ctx, ms []rpac.ValidationInfo, evals *int64) {
+	v := ms[0]
+	for _, sigType := range []int32{15, 16, -138, 19, 20} {
+		et := etypeOf(sigType)
+		key := keyOf(et, c.Seed+3)
+		kdcKey := keyOf(18, c.Seed+98)
+		// (a)
+		order := []uint32{rpac.TypeLogonInfo, rpac.TypeClientInfo, rpac.TypeServerSig, rpac.TypeKDCSig, rpac.TypeServerSig, rpac.TypeKDCSig}
+		var bufs []rpac.Buffer
+		for _, t := range order {
+			var d []byte
+			switch t {
+			case rpac.TypeLogonInfo:
+				d = v.Encode()
+			case rpac.TypeClientInfo:
+				d = rpac.ClientInfo(v.LogonTime, v.EffectiveName.Value)
+			case rpac.TypeServerSig:
+				d = rpac.SigBuffer(sigType, nil)
+			case rpac.TypeKDCSig:
+				d = rpac.SigBuffer(16, nil)
+			}
+			bufs = append(bufs, rpac.Buffer{Type: t, Data: d})
+		}
+		pb, lay := rpac.Assemble(bufs)
+		// the duplicates carry non-zero bytes where a signature value would be
+		for _, idx := range []int{4, 5} {
+			for k := 4; k < lay.Sizes[idx]; k++ {
+				pb[lay.Offsets[idx]+k] = byte(0xA0 + k)
+			}
+		}
+		if err := rpac.Sign(pb, lay, 2, 3, sigType, et, key, 16, 18, kdcKey); err != nil {
+			engine.Fatal("sign: %v", err)
+		}
+		rec := map[string]interface{}{"signature_type": sigType, "what": "second server- and KDC-signature buffer"}
+		// the same PAC signed over data in which the later buffers' values were blanked as well: that is not the
+		// PAC with (only) the two signature fields zeroed, so the signature does not match and it must be refused
+		{
+			wrong := append([]byte{}, pb...)
+			for _, idx := range []int{2, 3, 4, 5} {
+				for k := 4; k < lay.Sizes[idx]; k++ {
+					wrong[lay.Offsets[idx]+k] = 0
+				}
+			}
+			sig, err := rcrypto.Checksum(et, key, 17, wrong)
+			if err != nil {
+				engine.Fatal("checksum: %v", err)
+			}
+			forged := append([]byte{}, pb...)
+			copy(forged[lay.Offsets[2]+4:lay.Offsets[2]+4+rpac.SigLen(sigType)], sig)
+			*evals++
+			if rr := process(forged, et, key); rr.err == nil && rr.panic == "" {
+				c.Violate("duplicates", fmt.Sprintf("accepts-signature-over-other-data:later-signature-buffers-blanked:sig%d", sigType), nil, rec)
+			}
+		}
+		*evals++
+		r := process(pb, et, key)
+		if r.panic != "" {
+			c.Violate("duplicates", "panic:duplicate-signature-buffers", map[string]interface{}{"panic": r.panic}, rec)
+			continue
+		}
+		if r.err != nil {
+			// the property does not say whether a PAC with repeated signature buffers is acceptable: not judged
+			c.Add("not_judged", 1)
+			c.Note("PAC with repeated signature buffers (sig type %d) rejected: %v", sigType, r.err)
+		} else {
+			for _, idx := range []int{4, 5} {
+				for bit := 0; bit < lay.Sizes[idx]*8; bit++ {
+					m := append([]byte{}, pb...)
+					m[lay.Offsets[idx]+bit/8] ^= 1 << uint(7-bit%8)
+					*evals++
+					if rr := process(m, et, key); rr.err == nil && rr.panic == "" {
+						c.Violate("duplicates", fmt.Sprintf("accepts-flip-in-signed-data:duplicate-signature-buffer:sig%d", sigType), map[string]interface{}{"buffer": idx, "bit": bit}, rec)
+						break
+					}
+				}
+			}
+			c.Distinct(fmt.Sprintf("dup-sig/%d", sigType))
+		}
+		// (b)
+		for _, extra := range [][]byte{{0, 0}, {'-', 0, 'a', 0, 'd', 0, 'm', 0, 'i', 0, 'n', 0}, {0xff}, make([]byte, 8)} {
+			ci := append(rpac.ClientInfo(v.LogonTime, v.EffectiveName.Value), extra...)
+			bufs := []rpac.Buffer{{Type: rpac.TypeLogonInfo, Data: v.Encode()}, {Type: rpac.TypeClientInfo, Data: ci}, {Type: rpac.TypeServerSig, Data: rpac.SigBuffer(sigType, nil)}, {Type: rpac.TypeKDCSig, Data: rpac.SigBuffer(16, nil)}}
+			pb, lay := rpac.Assemble(bufs)
+			if err := rpac.Sign(pb, lay, 2, 3, sigType, et, key, 16, 18, kdcKey); err != nil {
+				engine.Fatal("sign: %v", err)
+			}
+			rec := map[string]interface{}{"signature_type": sigType, "client_info_trailing_bytes": len(extra)}
+			*evals++
+			r := process(pb, et, key)
+			switch {
+			case r.panic != "":
+				c.Violate("padding", "panic:client-info-with-trailing-bytes", map[string]interface{}{"panic": r.panic}, rec)
+			case r.err != nil:
+				c.Add("not_judged", 1) // statement silent on whether trailing bytes are acceptable
+			case r.p.ClientInfo == nil || r.p.ClientInfo.Name != v.EffectiveName.Value:
+				got := ""
+				if r.p.ClientInfo != nil {
+					got = r.p.ClientInfo.Name
+				}
+				c.Violate("padding", "attributes:client-info-name:buffer-longer-than-name", map[string]interface{}{"got": got, "want": v.EffectiveName.Value}, rec)
+			default:
+				c.Distinct(fmt.Sprintf("ci-pad/%d/%d", sigType, len(extra)))
+			}
+		}
+	}
 }
